@@ -1,5 +1,6 @@
 """C18 — metadata queries select tables by the documented scoring order."""
 import itertools, random
+from concurrent.futures import ThreadPoolExecutor
 from .. import common
 
 THEOREMS = ["Lou.C18." + n for n in [
@@ -523,13 +524,35 @@ def gen_ladders(rng, n, tag):
 
 
 def witnesses():
-    """the counterexamples proved in LouProofs/C18.lean, reproduced on the implementation"""
+    """the counterexamples proved in LouProofs/C18.lean, reproduced on the implementation; the third
+    element says what reproducing means (checked in `witness_report`, never a failure by itself)"""
     W = []
-    # first occurrence fails when a later line repeats an earlier key:value
+    # tableInfo_first_fails_with_dup / _on_bytes: a later line repeats an earlier key:value
     h = Header("w1", [("+", "x", "", "a"), ("+", "x", "", "b"), ("+", "x", "", "a")])
-    W.append(MetaCase("w-first-dup", [h], [], [(0, b"x")], "witness"))
+    W.append((MetaCase("w-first-dup", [h], [], [(0, b"x")], "witness"), "tableInfo_first_fails_on_bytes",
+              lambda res: res[-1] is not None and res[-1][1] == b"b"))
     h = Header("w2", [("+", "x", "", "a"), ("+", "x", "", "A")])
-    W.append(MetaCase("w-first-case", [h], [], [(0, b"x")], "witness"))
+    W.append((MetaCase("w-first-case", [h], [], [(0, b"x")], "witness"), "tableInfo_first (case variant)",
+              lambda res: res[-1] is not None and res[-1][1] == b"A"))
+    # exact_found_fails_with_many_languages: 105 distinct languages, the query names them all
+    tags = [a + b for a in "abcdefghijk" for b in "abcdefghij"][:105]
+    h = Header("w3", [("+", "language", " ", t) for t in tags])
+    q = [("language", t) for t in tags]
+    W.append((MetaCase("w-many-languages", [h], [(qstring(q).encode(), q), (b"language:aa", [("language", "aa")])], [], "witness"),
+              "exact_found_fails_with_many_languages",
+              lambda res: all(r is not None and r[0] in ("I", "LS") or r[1] in (None, []) for r in res)))
+    # exact_score_fails_with_two_values: ucs2 and ucs4 declared, ucs4 queried: found, but by quotient 9 (model: MSCORE)
+    # dominating_but_not_positive: x absent dominates x:b for the query x:a, nobody is returned
+    h1 = Header("w4", [("+", "unicode-range", "", "ucs2")])
+    h2 = Header("w5", [("+", "unicode-range", "", "ucs2"), ("+", "x", "", "b")])
+    W.append((MetaCase("w-dominating-not-positive", [h1, h2], [(b"x:a", [("x", "a")])], [], "witness"),
+              "dominating_but_not_positive",
+              lambda res: all(r is not None and (r[0] in ("I", "LS") or r[1] in (None, [])) for r in res)))
+    # the type confusion: a key that is a proper prefix of language/region/locale (model: UNSUPPORTED)
+    h = Header("w6", [("+", "l", " ", "en")])
+    W.append((MetaCase("w-prefix-key", [h], [(b"l:en", None)], [(0, b"l")], "witness"),
+              "type confusion on prefix keys (no theorem: outside the model)",
+              lambda res: res[-1] is not None and res[-1][1] != b"en"))
     return W
 
 
@@ -625,8 +648,11 @@ def oracle(mc, res, v):
         v.cov["info_evaluations"] = v.cov.get("info_evaluations", 0) + 1
         if want is not None:
             if got is None or got.decode("latin-1") != want:
-                if key.lower() == "locale":
+                kl = key.lower()
+                if kl == "locale":
                     sig = "C18:info-first-occurrence:locale-key"
+                elif any(w.startswith(kl) and w != kl for w in LANG) and kl:
+                    sig = "C18:info-first-occurrence:prefix-key"
                 elif has_dup_feature(h, key):
                     sig = "C18:info-first-occurrence:dup-feature"
                 else:
@@ -667,70 +693,101 @@ def run(tier):
         v.obligation("harness builds from /repo working tree (hooks on, ASan+UBSan)", False, str(e)[-2000:])
         return v.finish()
     quick = tier == "quick"
-    mcs = []
-    mcs += gen_exhaustive(QUICK_UNIVERSES if quick else THOROUGH_UNIVERSES, 3, "e")
-    if not quick:
-        mcs += gen_exhaustive(THOROUGH_3KEY, 2, "e3")
-    mcs += gen_random(rng, 2500 if quick else 100000, "")
-    mcs += gen_ladders(rng, 400 if quick else 6000, "")
-    mcs += gen_malformed(rng, 600 if quick else 12000, "")
-    mcs += witnesses()
-    cases = [m.case() for m in mcs]
-    common.run_cases(exe, cases, batch=40 if quick else 200)
-    mlines = [l for m in mcs for l in m.mlines]
-    mout = common.run_model(mlines, timeout=3600)
     dist = {"tables_per_set": {}, "active_lines_per_table": {}, "streams": {}, "ops": {}, "find_null": 0, "find_hit": 0,
             "finds_sizes": {}, "index_orders": 0, "queries_malformed(e>0)": 0, "tables_rejected": 0, "info_null": 0,
             "info_value": 0, "model_unsupported": 0}
     mism = []
     faults = []
-    pos = 0
-    for m, c in zip(mcs, cases):
-        n = len(m.ops)
-        mo = mout[pos:pos + n]
-        pos += n
-        dist["streams"][m.stream] = dist["streams"].get(m.stream, 0) + 1
-        dist["tables_per_set"][len(m.headers)] = dist["tables_per_set"].get(len(m.headers), 0) + 1
-        for h in m.headers:
-            na = len(active_fields(h))
-            dist["active_lines_per_table"][na] = dist["active_lines_per_table"].get(na, 0) + 1
-        dist["index_orders"] += len(m.orders)
-        if c.fault:
-            faults.append((m, c.fault))
-        res = []
-        for k in range(n):
-            hl = c.out[k] if k < len(c.out) else None
-            if hl is None:
-                res.append(None)
-                continue
-            r = parse_result(hl)
-            res.append(r)
-            op = m.ops[k][0]
-            dist["ops"][op] = dist["ops"].get(op, 0) + 1
-            if op == "FIND":
-                dist["find_hit" if r[1] is not None else "find_null"] += 1
-                if r[2]:
-                    dist["queries_malformed(e>0)"] += 1
-            elif op == "FINDS":
-                dist["finds_sizes"][len(r[1])] = dist["finds_sizes"].get(len(r[1]), 0) + 1
-            elif op == "INDEX":
-                dist["tables_rejected"] += r[2] or 0
-            elif op == "INFO":
-                dist["info_value" if r[1] is not None else "info_null"] += 1
-            ml = mo[k] if k < len(mo) else None
-            if ml == "UNSUPPORTED":
-                dist["model_unsupported"] += 1
-            elif ml != hl:
-                mism.append((m, k, hl, ml))
-        oracle(m, res, v)
-        if m.stream != "exhaustive" or len(v.cov["samples"]) < 2:
-            for k, (op, a, b) in enumerate(m.ops):
-                if op == "FINDS" and res[k] and len(res[k][1]) >= 2 and len(v.cov["samples"]) < 6:
-                    v.sample({"files": {h.name: h.data().decode("latin-1") for h in m.headers},
-                              "index_order": [m.headers[i].name for i in m.orders[a]],
-                              "query": m.queries[b][0].decode("latin-1"), "lou_findTables": [x.decode() for x in res[k][1]],
-                              "lou_findTable": (res[k - 1][1] or b"null").decode()})
-                    break
+    nlines = [0]
+    wit = witnesses()
+    wit_report = {}
+
+    def process(mcs):
+        """run one chunk through the harness and (concurrently) the model, compare, evaluate the oracle"""
+        cases = [m.case() for m in mcs]
+        mlines = [l for m in mcs for l in m.mlines]
+        nlines[0] += len(mlines)
+        with ThreadPoolExecutor(1) as ex:
+            fut = ex.submit(common.run_model, mlines, 3600)
+            common.run_cases(exe, cases, batch=40 if quick else 100)
+            mout = fut.result()
+        pos = 0
+        for m, c in zip(mcs, cases):
+            n = len(m.ops)
+            mo = mout[pos:pos + n]
+            pos += n
+            dist["streams"][m.stream] = dist["streams"].get(m.stream, 0) + 1
+            dist["tables_per_set"][len(m.headers)] = dist["tables_per_set"].get(len(m.headers), 0) + 1
+            for h in m.headers:
+                na = len(active_fields(h))
+                dist["active_lines_per_table"][na] = dist["active_lines_per_table"].get(na, 0) + 1
+            dist["index_orders"] += len(m.orders)
+            if c.fault:
+                faults.append((m, c.fault))
+            res = []
+            for k in range(n):
+                hl = c.out[k] if k < len(c.out) else None
+                if hl is None:
+                    res.append(None)
+                    continue
+                r = parse_result(hl)
+                res.append(r)
+                op = m.ops[k][0]
+                dist["ops"][op] = dist["ops"].get(op, 0) + 1
+                if op == "FIND":
+                    dist["find_hit" if r[1] is not None else "find_null"] += 1
+                    if r[2]:
+                        dist["queries_malformed(e>0)"] += 1
+                elif op == "FINDS":
+                    dist["finds_sizes"][len(r[1])] = dist["finds_sizes"].get(len(r[1]), 0) + 1
+                elif op == "INDEX":
+                    dist["tables_rejected"] += r[2] or 0
+                elif op == "INFO":
+                    dist["info_value" if r[1] is not None else "info_null"] += 1
+                ml = mo[k] if k < len(mo) else None
+                if ml == "UNSUPPORTED":
+                    dist["model_unsupported"] += 1
+                elif ml != hl and len(mism) < 50:
+                    mism.append((m, k, hl, ml))
+            oracle(m, res, v)
+            for wm, name, pred in wit:
+                if wm is m:
+                    try:
+                        wit_report[name] = bool(pred(res))
+                    except Exception as e:
+                        wit_report[name] = "error: %r" % e
+            if m.stream != "exhaustive" or len(v.cov["samples"]) < 2:
+                for k, (op, a, b) in enumerate(m.ops):
+                    if op == "FINDS" and res[k] and len(res[k][1]) >= 2 and len(v.cov["samples"]) < 6:
+                        v.sample({"files": {h.name: h.data().decode("latin-1") for h in m.headers},
+                                  "index_order": [m.headers[i].name for i in m.orders[a]],
+                                  "query": m.queries[b][0].decode("latin-1"), "lou_findTables": [x.decode() for x in res[k][1]],
+                                  "lou_findTable": (res[k - 1][1] or b"null").decode()})
+                        break
+
+    first = gen_exhaustive(QUICK_UNIVERSES if quick else THOROUGH_UNIVERSES, 3, "e")
+    first += [w[0] for w in wit]
+    process(first)
+    if not quick:
+        process(gen_exhaustive(THOROUGH_3KEY, 2, "e3"))
+    n_random, n_ladder, n_malformed = (2500, 400, 600) if quick else (100000, 6000, 12000)
+    chunk = 2500
+    done = 0
+    while done < n_random:
+        k = min(chunk, n_random - done)
+        process(gen_random(rng, k, "c%d" % done))
+        done += k
+    done = 0
+    while done < n_ladder:
+        k = min(chunk, n_ladder - done)
+        process(gen_ladders(rng, k, "c%d" % done))
+        done += k
+    done = 0
+    while done < n_malformed:
+        k = min(chunk, n_malformed - done)
+        process(gen_malformed(rng, k, "c%d" % done))
+        done += k
+    v.cov["witnesses_reproduced_on_implementation"] = wit_report
     v.obligation("correspondence: model line == implementation line for every INDEX/LIST/FIND/FINDS/INFO op", not mism,
                  "; ".join("case %s op %r: impl %r model %r files %r" % (
                      m.id, m.hlines[k], hl, ml, {h.name: h.data()[:200] for h in m.headers}) for m, k, hl, ml in mism[:4]))
@@ -748,7 +805,7 @@ def run(tier):
     v.cov["rule"] = ("evaluation = one (table set, index order, query) with lou_findTable and lou_findTables compared; distinct "
                      "non-trivial = distinct (query, own-metadata table) exact matches found, distinct dominance profiles whose "
                      "dominating table was returned in every order, distinct (key, value, position) first-occurrence answers")
-    v.cov["model_ops_compared"] = len(mlines)
+    v.cov["model_ops_compared"] = nlines[0]
     v.assumptions += [
         "keys that are proper prefixes of language/region/locale are outside the model (C type confusion, reported as a finding)",
         "an empty index: LOUIS_TABLEPATH points to an empty directory, so lou_findTable's implicit indexing finds nothing",
